@@ -511,6 +511,21 @@ def runOpFin (op : String) (a : Array Val) : R (Array Val × Option (Array Val))
       else
         pure (#[.mat (C.putB (Mp.addmulMp sched 64 (some C.toB) A.toB B.toB cutoff.toNat))],
               some #[.mat (C.putB (C.toB.add (A.toB.mul B.toB)))])
+  | "process_rows" =>
+    -- M startrow stoprow startcol k S r : word-level mirrors of mzd_make_table + mzd_process_rows; the specification
+    -- adds to row i of M the combination of rows r.. of S selected by the k bits of M[i, startcol..), columns >= startcol
+    let M ← argMat a 0; let sr ← argNat a 1; let er ← argNat a 2; let sc ← argNat a 3; let k ← argNat a 4
+    let S ← argMat a 5; let r ← argNat a 6
+    let T0 := Mzd.ofB (BMat.zero (2 ^ k) S.ncols)
+    let (T, L) := W.makeTableW S r sc k T0 (Array.replicate (2 ^ k) 0)
+    let res := W.processRowsW M sr er sc k T L
+    let Mb := M.toB; let Sb := S.toB
+    let spec : BMat := ⟨Mb.nrows, Mb.ncols, (Array.range Mb.nrows).map fun i =>
+      if sr ≤ i ∧ i < er then
+        let bits := (Mb.row i >>> sc) % 2 ^ k
+        (List.range k).foldl (fun acc j => if bits.testBit j then acc ^^^ (Sb.row (r + j) &&& colMask sc Sb.ncols) else acc) (Mb.row i)
+      else Mb.row i⟩
+    pure (#[.mat res], some #[.mat (M.putB spec)])
   | "make_table" =>
     -- M r c k : table rows as a matrix of M's width and the index array
     let M ← argMat a 0; let r ← argNat a 1; let c ← argNat a 2; let k ← argNat a 3
